@@ -69,6 +69,9 @@ def _event(args):
     rng = random.Random((seed * 104729 + idx * 7 + opts.get("salt", 0)) & 0xFFFFFFFF)
     na_cols = opts.get("na_cols", ())
     w = gen.gen_world(rng, nmin=opts.get("nmin", 3), nmax=opts.get("nmax", 20), na_rate=opts.get("na_rate", 0.0), na_cols=na_cols, quarters=opts.get("quarters", False))
+    if rng.random() < 0.4:
+        # the index is irrelevant frame structure: non-unique labels, floats, unsorted
+        w.df.index = rng.choice([[rng.choice(["s1", "s2", "s3"]) for _ in range(w.n)], [float(rng.randint(0, 5)) + 0.5 for _ in range(w.n)], list(range(w.n, 0, -1))])
     resp = rng.choice(opts.get("resps", ["y"]))
     text, used, struct = gen.gen_formula(rng, groups=opts.get("groups", True), max_terms=opts.get("max_terms", 4), resp=resp, hier=opts.get("hier", 0.85))
     policy = rng.choice(opts.get("policies", ["drop"]))
